@@ -17,7 +17,7 @@ RULE = ("(1) every runtime block of ET/DT/ES (both Modbus framings; ES blocks of
         "style / field index, outcome class) tuples")
 ASSUMPTIONS = ["DT.read_settings_data() is outside the property's wording (it names ET and ES for the bulk settings read)",
                "a key may map to None; the key set must contain every id of the covered sensors/settings"]
-MUST = ["single_setting_reads_vs_own_registers", "repeated_polls_all_ids", "time_field_ranges_checked", "settings_none_pattern_checked", "undecodable_value_read_twice", "stateful_decode_compared", "settings_registers_refused", "single_reads_after_capability_change", "blocks_decoded", "none_values_seen", "valueerror_paths_seen", "field_sweeps", "end_to_end_runtime",
+MUST = ["source_constants_as_register_contents", "single_setting_reads_vs_own_registers", "repeated_polls_all_ids", "time_field_ranges_checked", "settings_none_pattern_checked", "undecodable_value_read_twice", "stateful_decode_compared", "settings_registers_refused", "single_reads_after_capability_change", "blocks_decoded", "none_values_seen", "valueerror_paths_seen", "field_sweeps", "end_to_end_runtime",
         "end_to_end_settings", "single_reads", "es_short_blocks"]
 EXHAUSTIVE = {"quick": False, "thorough": True}
 
@@ -62,6 +62,19 @@ def blocks_part(spec, part):
                 for _ in range(1 if style in ("zero", "ff") else spec["n"]):
                     n = block["nbytes"]
                     decode_block(g, part, block, blocks.styled_payload(rnd, n, style), style)
+            # boundary-seeking contents: every integer constant of the source under test (small ones and the 16/32-bit limits, with
+            # neighbours and negations) held by EVERY word / every double word (both alignments) of the block at once
+            hv = [v for v in env.harvest_ints() if abs(v) <= 1100 or abs(v) in (32766, 32767, 32768, 32769, 65534, 65535, 65536)]
+            for k, v in enumerate(hv):
+                if k % spec.get("hv_stride", 1) != spec.get("hv_phase", 0) % spec.get("hv_stride", 1):
+                    continue
+                n = block["nbytes"]
+                w, dw = (v & 0xFFFF).to_bytes(2, "big"), (v & 0xFFFFFFFF).to_bytes(4, "big")
+                for pl in ((w * (n // 2 + 1))[:n], (dw * (n // 4 + 1))[:n], (dw[2:] + dw * (n // 4 + 1))[:n]):
+                    decode_block(g, part, block, pl, "harvest-uniform")
+                    part.count("source_constants_as_register_contents")
+            for _ in range(spec["n"]):
+                decode_block(g, part, block, blocks.styled_payload(rnd, block["nbytes"], "harvest"), "harvest")
             if fam == "ES":
                 for ln in range(0, 256):
                     for style in ("ff", "random", "zero"):
@@ -379,7 +392,8 @@ def e2e_part(spec, part):
 def plan(tier, seed):
     specs = []
     for i in range(4 if tier == "quick" else 16):
-        specs.append({"mode": "blocks", "seed": f"{seed}:C11:B:{i}", "n": 60 if tier == "quick" else 1500})
+        specs.append({"mode": "blocks", "seed": f"{seed}:C11:B:{i}", "n": 60 if tier == "quick" else 1500,
+                      "hv_stride": 4 if tier == "quick" else 16, "hv_phase": i})
     for i in range(5):
         specs.append({"mode": "fields", "seed": f"{seed}:C11:F:{i}", "full": tier != "quick", "shards": 5, "shard": i})
     for i in range(4 if tier == "quick" else 16):
